@@ -21,9 +21,10 @@ FLOORS = {"literals_checked": 200, "literals_emulated": 50}
 I63, U64 = 2**63, 2**64
 BOUNDARY = [-(2**63) - 1, -(2**63), -(2**63) + 1, -1, 0, 1, 2**31, 2**32, 2**53 + 1, 2**63 - 1, 2**63, 2**63 + 1,
             2**64 - 1, 2**64, 2**64 + 1, -(2**64), 2**70, -(2**70), 12345678901234567890]
-FORMS = ["annassign", "return", "comptime", "tuple", "array", "unannotated", "argument", "comptime_tuple"]
+FORMS = ["annassign", "return", "comptime", "tuple", "array", "unannotated", "argument", "comptime_tuple",
+         "comptime_list", "comptime_list", "array_later"]
 HDR = ("from guppylang import guppy\n"
-       "from guppylang.std.builtins import result, nat, array, comptime\n"
+       "from guppylang.std.builtins import result, nat, array, comptime, frozenarray\n"
        "from guppylang.std.platform import _result_nat\n\n"
        "@guppy\ndef id_int(x: int) -> int:\n    return x\n\n"
        "@guppy\ndef id_nat(x: nat) -> nat:\n    return x\n\n")
@@ -83,6 +84,17 @@ def probe_src(k, form, ty, v, rng):
             body = f"    x = {L}\n    return x\n"
     elif form == "argument":
         body = f"    return id_{ty}({L})\n"
+    elif form == "comptime_list":
+        # a comptime Python list constant: every element (not just the first) is range-checked
+        pos = rng.randrange(3)
+        items = [str(rng.randint(0, 9)) for _ in range(3)]
+        items[pos] = str(v)
+        body = f"    xs: frozenarray[{ty}, 3] = comptime([{', '.join(items)}])\n    return xs[{pos}]\n"
+    elif form == "array_later":
+        pos = rng.randrange(1, 3)
+        items = [str(rng.randint(0, 9)) for _ in range(3)]
+        items[pos] = L
+        body = f"    a: array[{ty}, 3] = array({', '.join(items)})\n    return a[{pos}]\n"
     elif form == "comptime_tuple":
         body = f"    t: tuple[{ty}, {ty}] = comptime(({v}, 0))\n    return t[0]\n"
     else:
